@@ -993,8 +993,41 @@ class Analysis:
             t = self.term_of.get((name, v))
             if t is not None and t[0] != "opq":
                 return t
+            t = self._project_from_parent(name, v)
+            if t is not None:
+                return t
             return ("mem", name, v, None)
         return ("mem", name, v, addr)
+
+    def _project_from_parent(self, name, v):
+        """value of an inline sub-region (L5@Some.0) from the exactly known value of an enclosing region that was
+        written by the same definition"""
+        if v == ("e",) or v[0] != "d":
+            return None
+        i = len(name)
+        segs = []
+        while True:
+            j = max(name.rfind(".", 0, i), name.rfind("@", 0, i))
+            if j <= 0:
+                return None
+            segs.append(name[j:i])
+            parent = name[:j]
+            i = j
+            if "#" in parent or "*" in parent:
+                return None
+            pt = self.term_of.get((parent, v))
+            if pt is not None and pt[0] != "opq":
+                t = pt
+                for sg in reversed(segs):
+                    if sg[0] == "@":
+                        pay = self.phi_variant_input(t, sg[1:]) if t[0] == "phi" else None
+                        t = pay if pay is not None else ("dc", t, sg[1:])
+                    else:
+                        nm = sg[1:]
+                        if not nm.isdigit() and t[0] == "agg":
+                            return None
+                        t = mk_field(t, nm, int(nm) if nm.isdigit() else 0)
+                return t
 
     def operand_term(self, op, cur):
         k = op["k"]
@@ -1202,7 +1235,7 @@ class Analysis:
         if swap_store is not None:
             self.emit(swap_store)
         mode, name, vp = self.walk_place(t["dest"])
-        before = dict(cur) if key == "alloc::vec::Vec::set_len" else None
+        before = dict(cur) if key in ("alloc::vec::Vec::set_len", "alloc::vec::Vec::resize", "alloc::vec::Vec::resize_with") else None
         if mode == "val":
             self._apply_defs(b, i, cur, "v%d" % t["dest"]["local"], res)
         else:
@@ -1214,7 +1247,8 @@ class Analysis:
             if ver == ("d", b, i):
                 prev = before.get(R, ("e",))
                 self.term_of[(R, ver)] = ("setlen", self.term_of.get((R, prev), ("init", R)), raw_args[1])
-                self.setlen_prev[(R, ver)] = prev
+                if key == "alloc::vec::Vec::set_len":
+                    self.setlen_prev[(R, ver)] = prev       # set_len keeps the buffer; resize may move it
 
 
 # ---------------------------------------------------------------------------
@@ -1262,6 +1296,10 @@ def mk_bin(op, a, b):
             op, b = "Shr", ("const", "i32", k)
         else:
             op, b = "BitAnd", ("const", b[1], b[2] - 1)
+    if op == "Lt" and b[0] == "const" and b[2] == 1 and str(b[1]).startswith("u") and a[0] != "const":
+        op, b = "Eq", ("const", b[1], 0)        # unsigned: x < 1 is x == 0
+    elif op == "Le" and b[0] == "const" and b[2] == 0 and str(b[1]).startswith("u") and a[0] != "const":
+        op = "Eq"                                # unsigned: x <= 0 is x == 0
     if op in COMM and repr(b) < repr(a):
         a, b = b, a
     if a[0] == "const" and b[0] == "const" and isinstance(a[2], int) and isinstance(b[2], int):
